@@ -1,4 +1,270 @@
+//! Gen/Guards.lean: for every fn that has a `Guard` in scope (a `&Guard` parameter, or the
+//! `guard` field of a reference wrapper), the ordered list of what it does with that guard:
+//! `check` (a top-level `self.check_guard(g)` statement), `call` (passes it on to another fn of the
+//! crate, resolved to type/fn/parameter), `store` (wraps it in a value without reading through it),
+//! `raw` (anything else: a load, a retire, an iterator constructed from it, …).
+use crate::expr::{norm, tokens_of};
 use crate::util::*;
-pub fn generate(_files: &[SourceFile], _report: &mut Report) -> String {
-    String::from("-- GENERATED placeholder\n")
+use std::collections::BTreeMap;
+use syn::visit::Visit;
+use syn::{Expr, FnArg, Pat};
+
+#[derive(Clone, Debug)]
+enum Use {
+    Check,
+    Call { recv: String, name: String, arg_idx: usize },
+    Raw(String),
+    Store,
+}
+
+struct Row {
+    ty: String,
+    name: String,
+    public: bool,
+    params: Vec<String>, // all parameter names in order (excluding self)
+    guard_param: String,
+    uses: Vec<Use>,
+}
+
+fn impl_type_name(im: &syn::ItemImpl) -> String {
+    let s = tokens_of(&im.self_ty);
+    // `&HashMap<K,V,S>` (Extend impls) -> HashMap
+    let s = s.trim_start_matches('&').to_string();
+    s.split('<').next().unwrap_or("").to_string()
+}
+
+fn is_guard_type(t: &syn::Type) -> bool {
+    let s = tokens_of(t);
+    s.starts_with("&") && s.contains("Guard<")
+}
+
+struct UseVisitor<'a> {
+    guard_tokens: Vec<String>, // normalised spellings of the guard expression
+    uses: Vec<Use>,
+    top_level_checks: &'a [usize], // indices (in visiting order of method calls named check_guard) that are top-level
+    check_seen: usize,
+}
+
+fn is_guard_expr(e: &Expr, toks: &[String]) -> bool {
+    let s = tokens_of(e);
+    toks.iter().any(|t| *t == s)
+}
+
+impl<'ast, 'a> Visit<'ast> for UseVisitor<'a> {
+    fn visit_expr_method_call(&mut self, m: &'ast syn::ExprMethodCall) {
+        // receiver first (source order)
+        self.visit_expr(&m.receiver);
+        let name = m.method.to_string();
+        if is_guard_expr(&m.receiver, &self.guard_tokens) {
+            self.uses.push(Use::Raw(format!("{}.{}()", tokens_of(&m.receiver), name)));
+        }
+        for (i, a) in m.args.iter().enumerate() {
+            if is_guard_expr(a, &self.guard_tokens) {
+                if name == "check_guard" {
+                    let top = self.top_level_checks.contains(&self.check_seen);
+                    self.check_seen += 1;
+                    if top {
+                        self.uses.push(Use::Check);
+                    } else {
+                        self.uses.push(Use::Raw("conditional check_guard".into()));
+                    }
+                } else {
+                    self.uses.push(Use::Call {
+                        recv: tokens_of(&m.receiver),
+                        name: name.clone(),
+                        arg_idx: i,
+                    });
+                }
+            } else {
+                self.visit_expr(a);
+            }
+        }
+    }
+    fn visit_expr_call(&mut self, c: &'ast syn::ExprCall) {
+        let f = tokens_of(&c.func);
+        for (i, a) in c.args.iter().enumerate() {
+            if is_guard_expr(a, &self.guard_tokens) {
+                if f.starts_with("GuardRef::") {
+                    self.uses.push(Use::Store);
+                } else {
+                    self.uses.push(Use::Call {
+                        recv: format!("::{}", f),
+                        name: f.rsplit("::").next().unwrap_or("").to_string(),
+                        arg_idx: i,
+                    });
+                }
+            } else {
+                self.visit_expr(a);
+            }
+        }
+        self.visit_expr(&c.func);
+    }
+    fn visit_expr_struct(&mut self, s: &'ast syn::ExprStruct) {
+        for f in &s.fields {
+            if is_guard_expr(&f.expr, &self.guard_tokens) {
+                self.uses.push(Use::Store);
+            } else {
+                self.visit_expr(&f.expr);
+            }
+        }
+    }
+}
+
+/// which `check_guard` calls (in visiting order) are direct statements of the fn body
+fn top_level_check_indices(block: &syn::Block) -> Vec<usize> {
+    // count check_guard method calls in source order; a call is top-level iff the statement
+    // `self.check_guard(..);` is an element of block.stmts
+    let all = collect_exprs(block, &|e| matches!(e, Expr::MethodCall(m) if m.method == "check_guard"));
+    let mut tops = vec![];
+    for st in &block.stmts {
+        if let syn::Stmt::Expr(e @ Expr::MethodCall(m), _) = st {
+            if m.method == "check_guard" {
+                if let Some(i) = all.iter().position(|x| std::ptr::eq(*x, e)) {
+                    tops.push(i);
+                }
+            }
+        }
+    }
+    tops
+}
+
+fn recv_type(cur: &str, recv: &str) -> Option<String> {
+    let r = recv.trim_start_matches('&').trim_start_matches("(*").trim_end_matches(')');
+    let r = r.replacen("other", "self", 1);
+    let r = r.replace("(*self)", "self");
+    match (cur, r.as_str()) {
+        (_, "self") => Some(cur.to_string()),
+        ("HashSet", "self.map") => Some("HashMap".into()),
+        ("HashMapRef", "self.map") => Some("HashMap".into()),
+        ("HashSetRef", "self.set") => Some("HashSet".into()),
+        ("HashSetRef", "self.set.map") => Some("HashMap".into()),
+        _ => None,
+    }
+}
+
+pub fn generate(files: &[SourceFile], report: &mut Report) -> String {
+    let mut rows: Vec<Row> = vec![];
+    for rel in ["map.rs", "set.rs", "map_ref.rs", "set_ref.rs", "serde_impls.rs", "rayon_impls.rs"] {
+        let Some(f) = file(files, rel) else { continue };
+        for fi in fns(f) {
+            let Some(im) = fi.imp else { continue };
+            let ty = impl_type_name(im);
+            if !["HashMap", "HashSet", "HashMapRef", "HashSetRef"].contains(&ty.as_str()) {
+                continue;
+            }
+            let is_trait_impl = im.trait_.is_some();
+            let public = is_trait_impl || matches!(fi.vis, Some(syn::Visibility::Public(_)));
+            let mut params = vec![];
+            let mut guard_params = vec![];
+            for a in &fi.sig.inputs {
+                if let FnArg::Typed(pt) = a {
+                    let name = match &*pt.pat {
+                        Pat::Ident(pi) => pi.ident.to_string(),
+                        _ => "_".into(),
+                    };
+                    if is_guard_type(&pt.ty) {
+                        guard_params.push(name.clone());
+                    }
+                    params.push(name);
+                }
+            }
+            let tops = top_level_check_indices(fi.block);
+            let mut mk = |gp: String, toks: Vec<String>, rows: &mut Vec<Row>| {
+                let mut v = UseVisitor {
+                    guard_tokens: toks,
+                    uses: vec![],
+                    top_level_checks: &tops,
+                    check_seen: 0,
+                };
+                v.visit_block(fi.block);
+                rows.push(Row {
+                    ty: ty.clone(),
+                    name: fi.name.clone(),
+                    public,
+                    params: params.clone(),
+                    guard_param: gp,
+                    uses: v.uses,
+                });
+            };
+            for gp in &guard_params {
+                mk(gp.clone(), vec![norm(gp), norm(&format!("&{}", gp))], &mut rows);
+            }
+            {
+                // the wrapper's own guard, and the guard of another wrapper in binary impls
+                let body = tokens_of(fi.block);
+                if body.contains("self.guard") {
+                    mk("self.guard".into(), vec!["&self.guard".into(), "self.guard".into()], &mut rows);
+                }
+                if body.contains("other.guard") {
+                    mk("other.guard".into(), vec!["&other.guard".into(), "other.guard".into()], &mut rows);
+                }
+            }
+        }
+    }
+    // resolve calls: a callee is named by its row index
+    let index: BTreeMap<(String, String), Vec<String>> = rows
+        .iter()
+        .map(|r| ((r.ty.clone(), r.name.clone()), r.params.clone()))
+        .collect();
+    let row_of: BTreeMap<(String, String, String), usize> = rows
+        .iter()
+        .enumerate()
+        .map(|(i, r)| ((r.ty.clone(), r.name.clone(), r.guard_param.clone()), i))
+        .collect();
+    let mut out = String::from("-- GENERATED by /verif/extract from /repo/src on every run. Do not edit.\n");
+    out.push_str("import Flurry.SigDefs\nnamespace Flurry.Gen\nopen Flurry.Sig\n\ndef guardFns : List GFn := [\n");
+    let mut lines = vec![];
+    let mut npub = 0;
+    for r in &rows {
+        let mut uses = vec![];
+        for u in &r.uses {
+            uses.push(match u {
+                Use::Check => ".check".to_string(),
+                Use::Store => ".store".to_string(),
+                Use::Raw(w) => format!(".raw {}", lean_str(w)),
+                Use::Call { recv, name, arg_idx } => {
+                    let rt = if recv.starts_with("::") { None } else { recv_type(&r.ty, recv) };
+                    let resolved = rt.and_then(|t| {
+                        let ps = index.get(&(t.clone(), name.clone()))?;
+                        let p = ps.get(*arg_idx)?;
+                        row_of.get(&(t, name.clone(), p.clone())).copied()
+                    });
+                    match resolved {
+                        Some(i) => format!(".call {} {}", i, lean_str(&format!("{}::{}", rows[i].ty, rows[i].name))),
+                        None => format!(".raw {}", lean_str(&format!("{}.{}(..)", recv, name))),
+                    }
+                }
+            });
+        }
+        if r.public {
+            npub += 1;
+        }
+        lines.push(format!(
+            "  {{ ty := {}, fn := {}, pub := {}, param := {}, uses := [{}] }}",
+            lean_str(&r.ty),
+            lean_str(&r.name),
+            r.public,
+            lean_str(&r.guard_param),
+            uses.join(", ")
+        ));
+    }
+    out.push_str(&lines.join(",\n"));
+    out.push_str("\n]\n\n-- row indices by name\n");
+    let mut named = std::collections::BTreeSet::new();
+    for (i, r) in rows.iter().enumerate() {
+        let gp: String = r.guard_param.chars().map(|c| if c.is_alphanumeric() { c } else { '_' }).collect();
+        let n = format!("row_{}_{}_{}", r.ty, r.name, gp);
+        if named.insert(n.clone()) {
+            out.push_str(&format!("def {} : Nat := {}\n", n, i));
+        }
+    }
+    out.push_str("\nend Flurry.Gen\n");
+    report.count("guard_fns", rows.len());
+    report.count("guard_fns_public", npub);
+    if rows.is_empty() {
+        report.fail("guards", "no guard-taking functions found");
+    } else {
+        report.ok("guards");
+    }
+    out
 }
